@@ -112,8 +112,15 @@ def metadata_blocks(fs):
     out = {0 if fs.bs > 1024 else 1}
     for i in range(fs.desc_blocks):
         out.add(fs.desc_block_loc(i))
+    gcs = fs.has_gdt_csum or fs.has_csum
     for gd in fs.groups:
-        out |= {gd["block_bitmap"], gd["inode_bitmap"]} | set(range(gd["inode_table"], gd["inode_table"] + fs.itb_per_group))
+        out |= {gd["block_bitmap"], gd["inode_bitmap"]}
+        # the inode table as far as it is in use: e2image (like the kernel) leaves out the part the descriptor declares
+        # unused (bg_itable_unused) and the tables of INODE_UNINIT groups - released inodes there are not metadata any more
+        if gcs and gd["flags"] & BG_INODE_UNINIT:
+            continue
+        end = fs.itb_per_group - (gd["itable_unused"] // (fs.bs // fs.inode_size) if gcs else 0)
+        out |= set(range(gd["inode_table"], gd["inode_table"] + end))
     for ino in range(1, fs.inodes_count + 1):
         g = (ino - 1) // fs.inodes_per_group
         if fs.has_gdt_csum or fs.has_csum:
